@@ -1,6 +1,7 @@
 package rules
 
 import (
+	"go/token"
 	"strings"
 
 	"f2gcheck/internal/ir"
@@ -31,7 +32,7 @@ func (c *Ctx) origModeFields(run *ssa.Function, tb *ir.TB) map[string]bool {
 }
 
 func c16(c *Ctx) {
-	c.R.Explanation = "C16 decided by lock coverage (flag-specialised must-lockset, E5) on the SSA of /repo. The lock is discovered, not named: the sync.Mutex whose Lock call is control-dependent on the configuration flag RunFanInitializationInParallel being false. The analysis is an interprocedural typestate {unlocked, held} (Lock -> held, Unlock / deferred Unlock -> unlocked, callee summaries as state relations) specialised to flag == false (branches on the flag are followed only in the consistent direction). Rule: every Fan.SetPwm invoke reachable from a FanController.RunInitializationSequence implementation or from the start-up part of a FanController.Run implementation (everything Run calls directly; the run.Group actors are not part of start-up) is executed in state 'held' on every path; the restore routine (the functions that C03's typestate proves to hand the fan back) is excluded. Sound for mutual exclusion because two analyses overlap only if two goroutines are simultaneously inside code that drives a fan during analysis; if all such code holds one global mutex they cannot. With the flag true nothing is required."
+	c.R.Explanation = "C16 decided by lock coverage (flag-specialised must-lockset, E5) on the SSA of /repo. The lock is discovered, not named: the sync.Mutex whose Lock call is control-dependent on the configuration flag RunFanInitializationInParallel being false. The analysis is an interprocedural typestate {unlocked, held} (Lock -> held, Unlock / deferred Unlock -> unlocked, callee summaries as state relations) specialised to flag == false (branches on the flag are followed only in the consistent direction). Rule: every Fan.SetPwm invoke reachable from a FanController.RunInitializationSequence implementation or from the start-up part of a FanController.Run implementation (everything Run calls directly; the run.Group actors are not part of start-up) is executed in state 'held' on every path; the restore routine (the functions that C03's typestate proves to hand the fan back) is excluded. Sound for mutual exclusion because two analyses overlap only if two goroutines are simultaneously inside code that drives a fan during analysis; if all such code holds one global mutex they cannot. With the flag true nothing is required. A go statement met in the analysis code is outside the spawner's lock coverage: if the goroutine's call tree can drive the fan, the spawner must join it (unconditional channel receive or WaitGroup.Wait; a receive inside a select with a timeout case is not a join) on every path before it returns - then it is analysed as a synchronous call; otherwise R-lock reports the go statement."
 	c.R.Assumptions = append(c.R.Assumptions, "sync.Mutex semantics; the flag is not changed while the daemon runs (it is only stored by configuration loading)")
 	tb := ir.NewTB(c.P.IsRepoFunc, c.P.FuncKey)
 	tb.InlineMaxBlocks = 0
@@ -101,6 +102,7 @@ func c16(c *Ctx) {
 		},
 		Callees:  func(call ssa.CallInstruction) []*ssa.Function { return c.Callees(call) },
 		NoReturn: func(ins ssa.Instruction) bool { return c.noReturnCall(ins) },
+		GoAsCall: func(g *ssa.Go) bool { return joinedOnAllPaths(g) == nil },
 	}
 
 	runs := c.ImplMethods(PkgCtrl, "FanController", "Run")
@@ -141,6 +143,10 @@ func c16(c *Ctx) {
 		okSites := map[site]bool{}
 		ts.Run(entry, ir.Bit(stU), func(fn *ssa.Function, ins ssa.Instruction, m ir.Mask) {
 			cc, ok := ins.(ssa.CallInstruction)
+			if g, isGo := ins.(*ssa.Go); isGo && m != 0 {
+				c.ruleSpawn("R-lock", entries[entry], fn, g, restore)
+				return
+			}
 			if !ok || !isFanInvoke(cc, "SetPwm") || m == 0 || restore[fn] {
 				return
 			}
@@ -212,4 +218,56 @@ func c16(c *Ctx) {
 	c.R.Require("R-atomic", 1)
 	c.R.Require("R-lock", 2)
 	_ = strings.HasPrefix
+}
+
+// ruleSpawn: a goroutine started by the analysis code is outside the spawner's lock coverage (the mutex is held by
+// the spawning activation, not by the new goroutine). If the goroutine can drive the fan, the spawner must wait for
+// it on every path before it returns: an unconditional channel receive or WaitGroup.Wait on all paths from the go
+// statement to the function's exits. A wait inside a select with another ready case (a timeout) is not a join.
+func (c *Ctx) ruleSpawn(rule, entryName string, fn *ssa.Function, g *ssa.Go, restore map[*ssa.Function]bool) {
+	drives := ""
+	for _, f := range c.SortedFuncs(c.Closure(c.Callees(g), true, nil)) {
+		if restore[f] {
+			continue
+		}
+		Calls(f, func(cc ssa.CallInstruction) {
+			if isFanInvoke(cc, "SetPwm") && drives == "" {
+				drives = c.FK(f)
+			}
+		})
+	}
+	if drives == "" {
+		return
+	}
+	key := entryName + "|go|" + c.FK(fn)
+	escaped := ""
+	if r := joinedOnAllPaths(g); r != nil {
+		escaped = c.P.Pos(r.Pos())
+	}
+	if escaped != "" {
+		c.R.Bad(rule, key, c.FK(fn), c.P.Pos(g.Pos()), "analysis work that drives the fan ("+drives+") is handed to a goroutine and the spawner can return (at "+escaped+") without having waited for it: the initialisation mutex is released while that goroutine still writes PWM values, so two fans are analysed at the same time")
+	} else {
+		c.R.Ok(rule, key, c.FK(fn), c.P.Pos(g.Pos()), "the goroutine that drives the fan is joined (unconditional receive / WaitGroup.Wait) on every path before the spawner returns")
+	}
+}
+
+// joinedOnAllPaths returns a return instruction the spawner can reach from the go statement without an
+// unconditional channel receive or WaitGroup.Wait (nil: joined on every path).
+func joinedOnAllPaths(g *ssa.Go) *ssa.Return {
+	isJoin := func(ins ssa.Instruction) bool {
+		switch x := ins.(type) {
+		case *ssa.UnOp:
+			return x.Op == token.ARROW
+		case *ssa.Call:
+			return ir.CallName(x) == "(*sync.WaitGroup).Wait"
+		}
+		return false
+	}
+	var escaped *ssa.Return
+	ir.Search{StopInstr: isJoin}.Reach([]ir.Point{ir.After(g)}, func(ins ssa.Instruction, _ *ssa.BasicBlock) {
+		if r, ok := ins.(*ssa.Return); ok && escaped == nil {
+			escaped = r
+		}
+	})
+	return escaped
 }
